@@ -11,7 +11,9 @@ From Slsk Require Import C15.Spec.
 Import ListNotations.
 Open Scope nat_scope.
 
-Inductive req := RAdd (f : nat) | RRem (f : nat).         (* TrackingRequest(add_flag | remove_flag, flag); retry = RAdd 0 *)
+(* TrackingRequest(add_flag | remove_flag, flag) made by track_user / untrack_user (retry = False), and the request of
+   _request_retry: TrackingRequest(add_flag, TrackingFlag(0), retry=True) *)
+Inductive req := RAdd (f : nat) | RRem (f : nat) | RRetry.
 Inductive tst := Untracked | Tracked | RetryPending.
 Inductive pc :=
   | PIdle                     (* at `await queue.get()` *)
@@ -32,8 +34,9 @@ Definition absent (dq : list (nat * nat * bool)) (at_ : list skind) : user := mk
 Definition init : user := absent [] [].
 
 (* request.operation(request.flag): add_flag / remove_flag, GENERATED (SlskGen.TrackGen) *)
-Definition apply_req (r : req) (fl : nat) : nat := match r with RAdd f => apply_add fl f | RRem f => apply_rem fl f end.
-Definition req_flag (r : req) : nat := match r with RAdd f => f | RRem f => f end.
+Definition apply_req (r : req) (fl : nat) : nat := match r with RAdd f => apply_add fl f | RRem f => apply_rem fl f | RRetry => apply_add fl 0 end.
+Definition req_flag (r : req) : nat := match r with RAdd f => f | RRem f => f | RRetry => 0 end.
+Definition req_marked (r : req) : bool := match r with RRetry => true | _ => false end.      (* request.retry *)
 
 Definition set_pc (u : user) (p : pc) : user := mkU (present u) (flags u) (st u) (queue u) p (armed u) (deq u) (att u) (conf u).
 
@@ -69,7 +72,7 @@ Definition dequeue (u : user) : user :=
   | r :: q =>
       let prev := flags u in
       let new := apply_req r prev in
-      let retry := is_retry_req (req_flag r) in
+      let retry := is_retry_req (req_flag r) (req_marked r) in
       let acts := worker_decide prev new retry (qempty q) in
       let arm := if has WCancelRetry acts then None else armed u in      (* retry task cancelled, not awaited *)
       let dq := deq u ++ [(prev, new, retry)] in
@@ -108,7 +111,7 @@ Definition step (u : user) (ev : event) : user * list out :=
       end
   | TimerFires =>
       match armed u with
-      | Some _ => (mkU (present u) (flags u) (st u) (queue u ++ [RAdd 0]) (wpc u) None (deq u) (att u) (conf u), [])
+      | Some _ => (mkU (present u) (flags u) (st u) (queue u ++ [RRetry]) (wpc u) None (deq u) (att u) (conf u), [])
       | None => (u, [])
       end
   | DoneCb => (u, [])          (* the done-callback finds that the entry is no longer its own *)
